@@ -184,6 +184,33 @@ example : Sudoku.DB.fastOK 0x040906040305080701_000000000000000000_0000000000000
   decide +kernel
 end Props.C10
 
+namespace Props.C06
+/-- C06 ALONG A PLAY (audit r6 #10), from any feasible start state: if each of the first `k` actions is legal on the board it is
+played on, the board after them is feasible (induction with `sudoku_step_feasible`) -/
+theorem sudoku_feasible_along_from (s : State) (hf : Feasible s.board) (as : List Action) (k : Nat)
+    (hk : k ≤ as.length)
+    (hleg : ∀ j (hj : j < as.length), j < k →
+      legal (EpRun.after stepA s (as.take j)).board as[j].1 as[j].2.1 as[j].2.2) :
+    Feasible (EpRun.after stepA s (as.take k)).board := by
+  induction k with
+  | zero => simpa [EpRun.after] using hf
+  | succ k ih =>
+    have hk' : k < as.length := by omega
+    have ihk := ih (by omega) (fun j hj hjk => hleg j hj (by omega))
+    have hl := hleg k hk' (by omega)
+    rw [Sudoku.after_take_succ stepA _ as k hk']
+    exact Props.C06.sudoku_step_feasible _ ihk _ _ _ hl
+
+/-- … composed with `reset` and the generator: from the reset state of EVERY board of the shipped databases (base case
+`Props.C10.sudoku_db_feasible`), mask-respecting (= legal, `Props.C04.sudoku_mask_iff_legal`) play never leaves the feasible boards -/
+theorem sudoku_feasible_along (b : Grid Int) (hb : b ∈ Gen.SudokuDB.allBoards) (as : List Action) (k : Nat)
+    (hk : k ≤ as.length)
+    (hleg : ∀ j (hj : j < as.length), j < k →
+      legal (EpRun.after stepA (Sudoku.reset b).1 (as.take j)).board as[j].1 as[j].2.1 as[j].2.2) :
+    Feasible (EpRun.after stepA (Sudoku.reset b).1 (as.take k)).board :=
+  sudoku_feasible_along_from _ (by simpa [Sudoku.reset] using (Props.C10.sudoku_db_feasible b hb).1) as k hk hleg
+end Props.C06
+
 namespace Props.C11
 /-- every step that does not end the episode fills one empty cell, so an episode lasts at most as
 many steps as the puzzle has empty cells -/
@@ -281,30 +308,53 @@ theorem sudoku_step_obs_conforms (s : State) (r c d : Int) (hs : Grid.shaped s.b
     ObsInBounds obsBounds (obsLeaves (step s r c d).2.obs) ∧ ObsShaped (step s r c d).2.obs :=
   ⟨Sudoku.step_obs_in_bounds s r c d h hd, Sudoku.step_obs_shaped s hs r c d⟩
 
-/-- the proved interval and shape of `board` lie inside the DECLARED spec literal generated from the real
-`observation_spec` (`Gen/Specs.lean`, configuration `sudoku-default`: `BoundedArray((9,9), int32, -1, 9)`); the
-729-entry `action_mask` leaf is not part of the generated table (too large for kernel evaluation) -/
+/-- the proved intervals and shapes of `board` AND `action_mask` lie inside the DECLARED spec literals generated from the real
+`observation_spec` (`Gen/Specs.lean`, configuration `sudoku-default`: `BoundedArray((9,9), int32, -1, 9)` and
+`BoundedArray((9,9,9), bool, False, True)` — the 729-entry `action_mask` leaf is part of the generated table since leaves are
+cut by the size of their BOUNDS, not of the leaf), and likewise for the fixed-board configuration `sudoku-dummy` -/
 theorem sudoku_bounds_within_declared_spec :
     SpecTieSSM.tie "sudoku-default" obsBounds obsShapes = true ∧
-    (SpecTieSSM.obsLeavesOf "sudoku-default").map (·.1) = ["board"] := by decide +kernel
+    (SpecTieSSM.obsLeavesOf "sudoku-default").map (·.1) = ["board", "action_mask"] ∧
+    SpecTieSSM.tie "sudoku-dummy" obsBounds obsShapes = true ∧
+    (SpecTieSSM.obsLeavesOf "sudoku-dummy").map (·.1) = ["board", "action_mask"] := by decide +kernel
 example : SpecTieSSM.tie "sudoku-default" [("board", iv (-2) 8), ("action_mask", iv 0 1)] obsShapes = false ∧
-    SpecTieSSM.tie "sudoku-default" obsBounds [("board", [9, 8])] = false := by decide +kernel
+    SpecTieSSM.tie "sudoku-default" obsBounds [("board", [9, 8])] = false ∧
+    SpecTieSSM.tie "sudoku-default" obsBounds [("board", [9, 9]), ("action_mask", [9, 9, 8])] = false := by decide +kernel
+/-! NOTE on what the membership theorems of this section do and do not cover (audits r4 #6, r5 #6, r6 #8): the dtype tag of every leaf
+is written by `toNValue` (by construction) — a wrong dtype in the real code cannot falsify `….valid (toNValue …) = true`; dtypes and
+field order of the real observations are compared by the `sudoku.spec` / `sudoku.state` ops (`nvalue`: field order, shape, dtype, data) and
+`jax.eval_shape` in the sweeps.  Shapes are READ OFF the value by `toNValue` (widths off the first row): see `…_obs_valid_only`. -/
+
 /-! #### (wave 4) membership in the DECLARED specs: structure, field order, shapes, dtypes and inclusive bounds -/
 open Sp PzS PkS
 
 /-- the model's `obsSpec` / `actionSpec` / reward and discount specs ARE the specs generated from the real spec objects
-(Gen/Specs.lean) for both catalogue configurations of Sudoku.  The generated table holds the `board` leaf only (the 729-entry
-`action_mask` leaf is too large for it): the second leaf of `obsSpec` — name, shape (9, 9, 9), dtype bool, bounds — is
-compared with the real spec object at run time by the driver op `sudoku.spec` (every configuration of the adapter) -/
+(Gen/Specs.lean) for ALL THREE catalogue configurations of Sudoku (database, caller-held database, `DummyGenerator`) and the
+SPEC-ONLY `Sudoku(DummyGenerator())` (audit r6 #7).  The generated table holds every leaf whose BOUNDS are small, so the conjuncts
+are about the WHOLE `obsSpec`: `board` and the 729-entry `action_mask` leaf — name, shape (9, 9, 9), dtype bool, bounds — (they
+used to be `obsSpec.take 1`; the driver op `sudoku.spec` still compares both leaves at run time for every adapter configuration).
+Sudoku's specs have no size parameter, so there is nothing a second configuration could exchange -/
 theorem sudoku_obsSpec_generated :
-    prefixed "observation_spec." (Sudoku.obsSpec.take 1) = declared "sudoku-default" "observation_spec." ∧
-    prefixed "observation_spec." (Sudoku.obsSpec.take 1) = declared "sudoku-shared-db" "observation_spec." ∧
-    Sudoku.obsSpec.map (·.1) = ["board", "action_mask"] ∧
+    prefixed "observation_spec." (Sudoku.obsSpec) = declared "sudoku-default" "observation_spec." ∧
     [("action_spec", Sudoku.actionSpec)] = declared "sudoku-default" "action_spec" ∧
-    [("action_spec", Sudoku.actionSpec)] = declared "sudoku-shared-db" "action_spec" ∧
     [("reward_spec", rewardSpec)] = declared "sudoku-default" "reward_spec" ∧
-    [("discount_spec", discountSpec)] = declared "sudoku-default" "discount_spec" := by
-  refine ⟨by decide, by decide, by decide, by decide, by decide, by decide, by decide⟩
+    [("discount_spec", discountSpec)] = declared "sudoku-default" "discount_spec" ∧
+    prefixed "observation_spec." (Sudoku.obsSpec) = declared "sudoku-shared-db" "observation_spec." ∧
+    [("action_spec", Sudoku.actionSpec)] = declared "sudoku-shared-db" "action_spec" ∧
+    [("reward_spec", rewardSpec)] = declared "sudoku-shared-db" "reward_spec" ∧
+    [("discount_spec", discountSpec)] = declared "sudoku-shared-db" "discount_spec" ∧
+    Sudoku.obsSpec.map (·.1) = ["board", "action_mask"] ∧
+    prefixed "observation_spec." (Sudoku.obsSpec) = declared "sudoku-dummy" "observation_spec." ∧
+    [("action_spec", Sudoku.actionSpec)] = declared "sudoku-dummy" "action_spec" ∧
+    [("reward_spec", rewardSpec)] = declared "sudoku-dummy" "reward_spec" ∧
+    [("discount_spec", discountSpec)] = declared "sudoku-dummy" "discount_spec" ∧
+    prefixed "observation_spec." (Sudoku.obsSpec) = declared "spec-only-sudoku-dummy" "observation_spec." ∧
+    [("action_spec", Sudoku.actionSpec)] = declared "spec-only-sudoku-dummy" "action_spec" ∧
+    [("reward_spec", rewardSpec)] = declared "spec-only-sudoku-dummy" "reward_spec" ∧
+    [("discount_spec", discountSpec)] = declared "spec-only-sudoku-dummy" "discount_spec" := by
+  refine ⟨by decide +kernel, by decide +kernel, by decide +kernel, by decide +kernel, by decide +kernel, by decide +kernel,
+    by decide +kernel, by decide +kernel, by decide +kernel, by decide +kernel, by decide +kernel, by decide +kernel,
+    by decide +kernel, by decide +kernel, by decide +kernel, by decide +kernel, by decide +kernel⟩
 
 /-- the `reset` observation on top of ANY 9×9 board whose cells are −1 or digits 0..8 is accepted by
 `observation_spec.validate`: fields `board`, `action_mask`; shapes `(9, 9)`, `(9, 9, 9)`; dtypes int32, bool; bounds `[-1, 9]`,
@@ -358,7 +408,10 @@ theorem sudoku_rollout_obs_valid (s : State) (h : SpecInv s) (as : List Action) 
 
 /-- what membership means (so the theorems above are not hollow): `validate` accepts an observation ONLY IF `board` is 9×9
 (81 cells) with every cell in `[-1, 9]` and the mask is 9×9×9 (729 entries).  The declared maximum 9 (`BOARD_WIDTH`) is looser
-than what the environment emits (`CellsInRange`: −1..8, `sudoku_step_obs_in_bounds`) -/
+than what the environment emits (`CellsInRange`: −1..8, `sudoku_step_obs_in_bounds`)  CAVEAT (audits r4 #7, r5 #5, r6 #5): for every field that is a nested list, `toNValue` reads the widths off the FIRST row of the
+nested list, so the shape conjuncts here mean "row count, length of the first row, total number of cells" — a ragged value with the right total can be a
+member, and nothing is concluded about the later rows.  Rectangularity is part of the invariant (`SpecInv` / `Shaped` / `Rect…`) under which the
+forward theorems (`…_reset_obs_valid`, `…_step_obs_valid`, `…_along`) are proved, i.e. it holds of every EMITTED observation. -/
 theorem sudoku_obs_valid_only (o : Obs) (h : Sudoku.obsSpec.valid (toNValue o) = true) :
     shape2 o.board = [9, 9] ∧ (List.flatten o.board).length = 81 ∧ (∀ v ∈ List.flatten o.board, -1 ≤ v ∧ v ≤ 9) ∧
     shape3 o.mask = [9, 9, 9] ∧ (List.flatten (List.flatten o.mask)).length = 729 := Sudoku.obs_valid_only o h
